@@ -274,9 +274,8 @@ Definition compile_fn_body (G : genv) (d : fn) (p : pool) : option (list byte * 
   | Some (c, ce, p1) =>
       match encode_all c with
       | Some bs =>
-          (* "ensure function always returns": a rough check on the LAST BYTE of the code *)
-          let bs' := if last_byte_is_ret bs then bs else
-                       bs ++ match encode_all [mk OP_PUSH_VOID []; mk OP_RET []] with Some t => t | None => [] end in
+          (* "ensure function always returns": the epilogue PUSH_VOID; RET is appended unconditionally *)
+          let bs' := bs ++ match encode_all [mk OP_PUSH_VOID []; mk OP_RET []] with Some t => t | None => [] end in
           Some (bs', length ce, p1)
       | None => None end
   | None => None end.
